@@ -495,7 +495,13 @@ func (s *state) walkUseNode(node *parse.UseNode) error {
 		if !ok {
 			return errors.New("Unable to locate block with name \"" + orig + "\"")
 		}
-		blocks[alias] = v
+		// The block is imported under its alias, and only under it: it is a
+		// block of that name now (for parent(), too), and it does not override
+		// a block that happens to have its original name.
+		renamed := *v
+		renamed.Name = alias
+		blocks[alias] = &renamed
+		delete(blocks, orig)
 	}
 	l := len(s.blocks)
 	lb := s.blocks[l-1]
